@@ -25,6 +25,7 @@ EXPLANATION = (
     ' Round 4: (9) _focus is written only by __init__ and the focus setter, the one place that fires the focus-changed callback.'
     ' Round-4 triage: (10) extend / slice assignment materialise their iterable, sort() re-finds the focus by identity, the empty list is handled before the stored index is shifted; (11) index / count parameters are coerced with operator.index() before the override computes with them, the constructor focus goes through the validating setter, clear() reports the removal of the whole list. Round 5: (12) the focus moves to `stop` exactly under start + len(new_items) <= focus < stop.'
     " Round 8: (13) KIND: the index an override hands to super() is the caller's own (or operator.index of it), not the slice built for the focus arithmetic."
+    ' Round-8 triage: (14) KIND: MonitoredList.extend / += hand list(iterable) to the built-in (fix d9ee2f7); (15) PASS: sort() re-locates the focus on the exception edge of the list call (fix a893120).'
 )
 NOT_DECIDED = "The index arithmetic of _adjust_focus_on_contents_modified (which position the focus ends up at), equality with a built-in list for all operation sequences, error parity for every bad index."
 ASSUMPTIONS = ["The list of mutators is derived from the `list` type of the analysing interpreter (CPython 3.12)."]
